@@ -1049,7 +1049,10 @@ func (r *Raft) sendAppendEntries(id string, address string, numResponses *int, r
 		return
 	}
 
-	nextIndex := follower.nextIndex
+	// A follower may report a next index that is beyond the end of the log of this node
+	// (for example because it holds a snapshot that this node never saw). There is nothing
+	// to send beyond the end of the log: start there.
+	nextIndex := numeric.Min(follower.nextIndex, r.log.NextIndex())
 	prevLogIndex := numeric.Max(nextIndex-1, r.lastIncludedIndex)
 	prevLogTerm := r.lastIncludedTerm
 
